@@ -496,6 +496,29 @@ func ZZ_SVC_Scenarios() {
 			has, err := sc.HasTag("tag/big")
 			zz.Assert(err == nil, "pending.hastag.noerr")
 			zz.Assert(has == (model.flows[0].cbytes >= zzThreshold), "pending.tags-shown-for-a-stream-are-correct-while-the-tag-is-pending")
+			// ... and so are the tags in a listing that asks for them, and a search for the tag
+			listed := 0
+			err = v.AllStreams(context.Background(), func(sc StreamContext) error {
+				listed++
+				has, err := sc.HasTag("tag/big")
+				zz.Assert(err == nil, "pending.hastag.noerr")
+				for _, fs := range model.flows {
+					if fs.id == sc.Stream().ID() {
+						zz.Assert(has == (fs.cbytes >= zzThreshold), "pending.tags-in-a-listing-are-correct-while-the-tag-is-pending")
+					}
+				}
+				return nil
+			}, PrefetchAllTags())
+			zz.Assert(err == nil && listed == len(model.flows), "pending.listing")
+			found := map[uint64]bool{}
+			_, _, _, err = v.SearchStreams(context.Background(), &query.Query{Conditions: query.ConditionsSet{{zzTagCond("", "tag/big")}}}, func(sc StreamContext) error {
+				found[sc.Stream().ID()] = true
+				return nil
+			}, Limit(100, 0))
+			zz.Assert(err == nil, "pending.search.noerr")
+			for _, fs := range model.flows {
+				zz.Assert(found[fs.id] == (fs.cbytes >= zzThreshold), "pending.search-by-tag-is-correct-while-the-tag-is-pending")
+			}
 			v.Release()
 			zzInService(mgr, func() {})
 		}
